@@ -3,7 +3,10 @@ package main
 // Renderer: Defs → JSON Schema draft-07 (`definitions` + `$ref` root), in the dialect cog's
 // JSON Schema front-end (internal/jsonschema/generator.go) reads.
 
-import "sort"
+import (
+	"fmt"
+	"sort"
+)
 
 // renderOut is what every renderer returns.
 //
@@ -12,6 +15,7 @@ import "sort"
 //	       front-end is known to drop or to read differently ("lossy"); callers may skip such
 //	       cases or keep them to exhibit the loss.
 type renderOut struct {
+	Style       []string // spelling variants used (JSON Schema: "typeArray.nullable xN", "typeArray.union xN")
 	Text        string
 	RefText     string // schema text for the reference validator when it must differ from Text ("" = use Text)
 	Unsupported []string
@@ -52,13 +56,84 @@ func (r *renderOut) finish() {
 }
 
 type jsRenderer struct {
-	d   *Defs
-	out *renderOut
+	d     *Defs
+	out   *renderOut
+	seed  uint32 // hash of the term: spelling choices are a deterministic function of (term, node number)
+	node  uint32
+	style map[string]int
+}
+
+// jsTypeArrayStyle switches the `"type": [...]` spelling: "mixed" (default: about 2 of 3 expressible
+// nodes, chosen by hash), "always", "never".
+var jsTypeArrayStyle = "mixed"
+
+func fnv32(s string) uint32 {
+	h := uint32(2166136261)
+	for i := 0; i < len(s); i++ {
+		h ^= uint32(s[i])
+		h *= 16777619
+	}
+	return h
+}
+
+// useTypeArray decides, per node, whether an expressible node is spelled with a type array.
+func (r *jsRenderer) useTypeArray() bool {
+	r.node++
+	switch jsTypeArrayStyle {
+	case "always":
+		return true
+	case "never":
+		return false
+	}
+	h := (r.seed ^ (r.node * 2654435761)) * 2246822519
+	return (h>>16)%3 != 0
+}
+
+// jsPlainType: the JSON Schema type name of a scalar the type-array form can carry without losing
+// anything (cog's walkScalarDisjunction keeps neither constraints, formats nor defaults).
+func jsPlainType(s *Src) (string, bool) {
+	switch s.Kind {
+	case SBool:
+		return "boolean", true
+	case SString:
+		if !s.DateTime && s.MinLen == nil && s.MaxLen == nil {
+			return "string", true
+		}
+	case SInt:
+		if s.Width == 64 && s.Signed && s.Lo == nil && s.Hi == nil {
+			return "integer", true
+		}
+	case SNum:
+		if s.Width == 64 && s.FLo == nil && s.FHi == nil {
+			return "number", true
+		}
+	}
+	return "", false
+}
+
+// jsTypeArray returns the type names of a node expressible as `"type": [...]`: a plain scalar or a
+// union of plain scalars.
+func jsTypeArray(s *Src) ([]JV, bool) {
+	if t, ok := jsPlainType(s); ok {
+		return []JV{jStr(t)}, true
+	}
+	if s.Kind == SOneOfScalars && len(s.Alts) > 0 {
+		out := []JV{}
+		for _, a := range s.Alts {
+			t, ok := jsPlainType(a)
+			if !ok {
+				return nil, false
+			}
+			out = append(out, jStr(t))
+		}
+		return out, true
+	}
+	return nil, false
 }
 
 func renderJSONSchema(d *Defs) renderOut {
 	out := renderOut{}
-	r := &jsRenderer{d: d, out: &out}
+	r := &jsRenderer{d: d, out: &out, seed: fnv32(d.sexp()), style: map[string]int{}}
 	defs := jObj()
 	for _, it := range d.Items {
 		defs.O = append(defs.O, JKV{it.Name, r.ty(it.Ty)})
@@ -69,6 +144,11 @@ func renderJSONSchema(d *Defs) renderOut {
 		kv("definitions", defs),
 	)
 	out.Text = doc.pretty() + "\n"
+	for _, k := range []string{"typeArray.nullable", "typeArray.union"} {
+		if n := r.style[k]; n > 0 {
+			out.Style = append(out.Style, fmt.Sprintf("%s x%d", k, n))
+		}
+	}
 	out.finish()
 	return out
 }
@@ -158,6 +238,10 @@ func (r *jsRenderer) ty(s *Src) JV {
 		o.set("properties", props)
 		return o
 	case SOneOfScalars:
+		if names, ok := jsTypeArray(s); ok && r.useTypeArray() {
+			r.style["typeArray.union"]++
+			return jObj(kv("type", jArr(names...)))
+		}
 		alts := jArr()
 		for _, a := range s.Alts {
 			alts.A = append(alts.A, r.ty(a))
@@ -178,6 +262,14 @@ func (r *jsRenderer) ty(s *Src) JV {
 }
 
 func (r *jsRenderer) field(f Field) JV {
+	// `"type": ["integer", "null"]`: the other legitimate spelling of a nullable plain scalar (or of a
+	// nullable union of plain scalars); not used when a default would be lost with it
+	if f.Nullable && f.Default == nil {
+		if names, ok := jsTypeArray(f.Ty); ok && r.useTypeArray() {
+			r.style["typeArray.nullable"]++
+			return jObj(kv("type", jArr(append(names, jStr("null"))...)))
+		}
+	}
 	t := r.ty(f.Ty)
 	if f.Default != nil {
 		switch f.Ty.Kind {
